@@ -54,6 +54,8 @@ func verifMatchUF(pat Secret, val string) bool {
 		return pat.Match(val)
 	}
 	r := nondetBool("M")
+	// for native replay prefer instances in which the arbitrary predicate is realised by literal patterns
+	replayHint(r == and(string(pat) == val, not(strings.Contains(string(pat), "*"))))
 	for _, e := range verifMatchTable {
 		assume(implies(and(e.p == pat, e.n == val), r == e.r))
 	}
